@@ -25,6 +25,7 @@ type Clause struct {
 	Expr   ast.Expr
 	Panics bool // requires whose violation is a panic of the callee (nopanic obligation at call sites)
 	Ground bool // prove from the ground (quantifier-free) part of the assumptions only
+	All    bool // hint that must be expressible and hold at every return site
 	Known  string
 }
 
@@ -75,7 +76,7 @@ type LemmaVar struct {
 	Sort string
 }
 
-var labelRe = regexp.MustCompile(`^\[([A-Za-z0-9_\-:/.]+)((?:\s+@C[0-9]+)*)(\s+panics|\s+ground)?\]\s*`)
+var labelRe = regexp.MustCompile(`^\[([A-Za-z0-9_\-:/.]+)((?:\s+@C[0-9]+)*)(\s+panics|\s+ground|\s+all)?\]\s*`)
 
 // preprocess turns "a ==> b" (lowest precedence, right associative) into
 // implies(a, b) so that the rest is a plain Go expression.
@@ -214,6 +215,7 @@ func parseClause(kind, rest string) (*Clause, error) {
 		}
 		c.Panics = strings.TrimSpace(m[3]) == "panics"
 		c.Ground = strings.TrimSpace(m[3]) == "ground"
+		c.All = strings.TrimSpace(m[3]) == "all"
 		rest = rest[len(m[0]):]
 	}
 	c.Src = strings.TrimSpace(rest)
